@@ -501,11 +501,17 @@ fn c17_ws_proxy(case: &Case) {
     let limit = draw_limit();
     let n_ops = range(1, 5) as usize;
     let sizes: Vec<usize> = (0..n_ops).map(|_| draw_size(limit, 48 + "/sized".len())).collect();
-    case.sample(json!({"assumed_peer_frame_limit": limit, "forwarded_response_sizes": sizes}));
+    // what the upstream answers with: 0 a sized OK response, 1 a handler error whose message
+    // makes the reply that size, 2 method-not-found for a path that makes the reply about that size
+    let kinds: Vec<u8> = (0..n_ops).map(|_| pick(&[0u8, 0, 1, 2])).collect();
+    case.sample(json!({"assumed_peer_frame_limit": limit, "forwarded_response_sizes": sizes, "reply_kinds": kinds}));
     let case = case.clone();
     aio::run(&case.clone(), 3_600, async move {
         // upstream: real AsyncServer
-        let router = Router::new().with_erased_handler("/sized", Arc::new(Sized { off_reader: false })).with_json("/echo", |v: Value| Ok(json!({"echo": v})));
+        let router = Router::new()
+            .with_erased_handler("/sized", Arc::new(Sized { off_reader: false }))
+            .with_json("/fails", |v: Value| Err((ErrorCode::ApplicationErrorBase, "e".repeat(v["n"].as_u64().unwrap_or(0) as usize))))
+            .with_json("/echo", |v: Value| Ok(json!({"echo": v})));
         let up_listener = AsyncServer::listen("127.0.0.1:0").await.unwrap();
         let up_addr = up_listener.local_addr().unwrap();
         let upstream = tokio::spawn(async move {
@@ -531,6 +537,37 @@ fn c17_ws_proxy(case: &Case) {
         let mut id = 0u64;
         for (k, size) in sizes.iter().enumerate() {
             id += 1;
+            if kinds[k] != 0 {
+                // an upstream *error* reply of about that size
+                let (q, body): (Vec<u8>, Vec<u8>) = if kinds[k] == 1 {
+                    (b"/fails".to_vec(), serde_json::to_vec(&json!({"n": size.saturating_sub(48 + "/fails".len())})).unwrap())
+                } else {
+                    (format!("/nope/{}", "p".repeat(size.saturating_sub(48 + 24) / 2)).into_bytes(), b"null".to_vec())
+                };
+                let _ = send_frame(&mut sink, &Frame::new(id, &q, &body).with_formats(1, 2)).await;
+                let want = id;
+                if !wait_until(60_000, || !inbox.responses_for(want).is_empty() || inbox.ended()).await || inbox.responses_for(id).len() != 1 {
+                    case.fail("connection-lost", format!("op {k} (forwarded error reply of about {size} B, limit {limit:?}): {} responses, ended={}", inbox.responses_for(id).len(), inbox.ended()));
+                    break;
+                }
+                let r = &inbox.responses_for(id)[0];
+                let got = 48 + r.query.len() + r.body.len();
+                case.check(r.ec != 0, "response-altered", || format!("an upstream error reply arrived as ec=0 ({got} B)"));
+                if let Some(l) = limit {
+                    case.check(got <= l, "message-over-limit", || format!("the proxy forwarded an error reply of {got} B (ec={}), assumed peer frame limit {l}", r.ec));
+                }
+                if kinds[k] == 1 {
+                    if limit.is_some_and(|l| *size > l) {
+                        case.probe("oversized_error_reply_replaced");
+                        case.check(r.ec == ErrorCode::InternalError as u32, "oversized-response-not-replaced", || format!("forwarded error reply of {size} B over limit {limit:?} arrived as ec={} with {} body bytes", r.ec, r.body.len()));
+                    } else {
+                        case.check(r.ec == ErrorCode::ApplicationErrorBase as u32 && r.body.len() == size - 48 - "/fails".len() && r.body.iter().all(|b| *b == b'e'), "response-altered", || {
+                            format!("forwarded error reply of {size} B within limit {limit:?} arrived as ec={} body {} B", r.ec, r.body.len())
+                        });
+                    }
+                }
+                continue;
+            }
             let n = size - 48 - "/sized".len();
             let body = serde_json::to_vec(&json!({"n": n})).unwrap();
             let _ = send_frame(&mut sink, &Frame::new(id, b"/sized", &body).with_formats(1, 2)).await;
@@ -605,7 +642,15 @@ fn c17_ws_client(case: &Case) {
                 }
             }
         });
-        let limits = WebSocketLimits::default().with_assumed_peer_frame_limit(limit);
+        // the client's *inbound* limits are their own knob (replies here are ~55 bytes)
+        let limits = match simkernel::choose(4) {
+            0 => WebSocketLimits::default(),
+            1 => WebSocketLimits::default().with_max_incoming_frame_size(None).with_max_incoming_message_size(None),
+            2 => WebSocketLimits::default().with_max_incoming_frame_size(Some(1024)).with_max_incoming_message_size(Some(1024)),
+            _ => WebSocketLimits::default().with_max_incoming_frame_size(Some(4096)),
+        }
+        .with_assumed_peer_frame_limit(limit);
+        case.cover("client_inbound_limits", format!("{:?}/{:?}", limits.max_incoming_frame_size, limits.max_incoming_message_size));
         let client = match WebSocketClient::connect_with_limits(&format!("ws://{addr}/repe"), limits).await {
             Ok(c) => c,
             Err(e) => {
